@@ -1215,7 +1215,8 @@ func (r *Resource) DominantResourceType(capacity *Resource) string {
 }
 
 func (r *Resource) TypeMatching(other *Resource) uint64 {
-	if r == nil || other == nil {
+	// an empty resource has no type that could match (and would divide by zero below)
+	if r == nil || other == nil || len(r.Resources) == 0 {
 		return 0
 	}
 	matchingResTypes := 0
